@@ -162,7 +162,28 @@ def m_format(I, state, frame, bi, t, args, span):
                 provs.append(frozenset([("keynum", v[1])]))
             else:
                 provs.append(frozenset([("nonstr", v[0])]))
-        return [(string([("fmt", tm, tuple(provs))]), state)]
+        # constant arguments (named separators) are folded into the template
+        tm2, provs2 = [], []
+        ai = 0
+        for part in tm:
+            if part is None:
+                p = provs[ai] if ai < len(provs) else frozenset([("unknown",)])
+                ai += 1
+                if len(p) == 1 and list(p)[0][0] == "const":
+                    lit = list(p)[0][1]
+                    if tm2 and tm2[-1] is not None:
+                        tm2[-1] = tm2[-1] + lit
+                    else:
+                        tm2.append(lit)
+                else:
+                    tm2.append(None)
+                    provs2.append(p)
+            else:
+                if tm2 and tm2[-1] is not None:
+                    tm2[-1] = tm2[-1] + part
+                else:
+                    tm2.append(part)
+        return [(string([("fmt", tuple(tm2), tuple(provs2))]), state)]
     return [(string([("unknown",)]), state)]
 
 
@@ -946,6 +967,8 @@ def m_into_iter(I, state, frame, bi, t, args, span):
     if v[0] == "iter":
         return [(v, state)]
     if v[0] == "coll":
+        if v[2] is not None:
+            return [(("iter", ("pairs", v[2], v[1], v[3])), state)]
         return [(("iter", ("av", v[1])), state)]
     if v[0] == "adt" and v[1] in ("std::ops::Range", "core::ops::Range"):
         fs = adt_variants(v)[0]
@@ -1341,3 +1364,328 @@ def default_external(I, state, frame, bi, t, args, span, name):
     if wrote:
         I.rec.note("imprecise", "unmodelled %s received &mut to engine state in %s" % (name, frame.body.name))
     return [(TOP, st)]
+
+
+# ---------------------------------------------------------------------------------------------
+# further iterator / option / collection models (idioms that behaviour-preserving refactorings introduce)
+
+@model("std::iter::Iterator::copied", "std::iter::Iterator::cloned", "std::iter::Iterator::fuse", "std::iter::Iterator::by_ref")
+def m_iter_copied(I, state, frame, bi, t, args, span):
+    v = deref(I, state, args[0]) if args[0][0] == "ref" else args[0]
+    if v[0] == "iter":
+        return [(v, state)]
+    return [(("iter", ("av", TOP)), state)]
+
+
+def each_element(I, state, frame, bi, it, span):
+    if it[0] == "iter":
+        return instantiate(I, state.copy(), frame, bi, it[1], span)
+    if it[0] == "coll":
+        return instantiate(I, state.copy(), frame, bi, ("av", it[1]), span) if it[1] is not None else []
+    return [(TOP, state.copy())]
+
+
+@model("std::iter::Iterator::for_each")
+def m_for_each(I, state, frame, bi, t, args, span):
+    from interp import join_state
+    it = deref(I, state, args[0]) if args[0][0] == "ref" else args[0]
+    merged = state.copy()
+    for (e, s1) in each_element(I, state, frame, bi, it, span):
+        for (rv, s2) in call_closure(I, s1, frame, bi, args[1], [e], span):
+            merged = join_state(merged, s2)
+    return [(TOP, merged)]
+
+
+@model("std::iter::Iterator::find", "std::iter::Iterator::find_map")
+def m_find(I, state, frame, bi, t, args, span):
+    it = deref(I, state, args[0]) if args[0][0] == "ref" else args[0]
+    res = [(adt(OPTION, {0: ()}), state.copy())]
+    for (e, s1) in each_element(I, state, frame, bi, it, span):
+        root = ("findelem", frame.fid, bi)
+        s1.heap[root] = e
+        for (rv, s2) in call_closure(I, s1, frame, bi, args[1], [ref(root, ())], span):
+            if rv[0] == "fin" and rv[1] == BOOL:
+                if (1,) not in rv[2]:
+                    continue
+                I.apply_links(s2, rv[3], 1)
+                res.append((some(e), s2))
+            elif rv[0] == "adt" and rv[1] == OPTION:
+                vs = adt_variants(rv)
+                if 1 in vs:
+                    res.append((some(vs[1][0]), s2))
+            else:
+                res.append((some(e), s2))
+    return res
+
+
+def m_all_any(is_all):
+    def f(I, state, frame, bi, t, args, span):
+        from interp import join_state
+        it = deref(I, state, args[0]) if args[0][0] == "ref" else args[0]
+        merged = state.copy()
+        may_true = may_false = False
+        for (e, s1) in each_element(I, state, frame, bi, it, span):
+            for (rv, s2) in call_closure(I, s1, frame, bi, args[1], [e], span):
+                merged = join_state(merged, s2)
+                if rv[0] == "fin" and rv[1] == BOOL:
+                    may_true = may_true or (1,) in rv[2]
+                    may_false = may_false or (0,) in rv[2]
+                else:
+                    may_true = may_false = True
+        I.rec.put("quantifier", I.sitekey(frame, bi, -1),
+                  dict(fn=frame.body.name, bb=bi, span=span, all=is_all, iter=it if it[0] == "iter" else None, closure=args[1],
+                       stack=frame.stack))
+        if is_all:
+            vals = [True] + ([False] if may_false else [])
+        else:
+            vals = [False] + ([True] if may_true else [])
+        return [(boolean(vals), merged)]
+    return f
+
+
+MODELS["std::iter::Iterator::all"] = m_all_any(True)
+MODELS["std::iter::Iterator::any"] = m_all_any(False)
+
+
+@model("std::iter::Iterator::flat_map")
+def m_flat_map(I, state, frame, bi, t, args, span):
+    it = args[0]
+    elem = None
+    for (e, s1) in each_element(I, state, frame, bi, it, span):
+        for (rv, s2) in call_closure(I, s1, frame, bi, args[1], [e], span):
+            inner = rv
+            for (e2, _s) in each_element(I, s2, frame, bi, inner, span) if inner[0] in ("iter", "coll") else [(TOP, s2)]:
+                elem = join(elem, anonymise(e2))
+    return [(("iter", ("av", elem)), state)]
+
+
+@model("std::iter::Iterator::chain")
+def m_chain(I, state, frame, bi, t, args, span):
+    elem = None
+    for a in args[:2]:
+        v = deref(I, state, a) if a[0] == "ref" else a
+        for (e, _s) in each_element(I, state, frame, bi, v, span):
+            elem = join(elem, anonymise(e))
+    return [(("iter", ("av", elem)), state)]
+
+
+@model("std::iter::Iterator::last", "std::iter::Iterator::max", "std::iter::Iterator::min", "std::iter::Iterator::nth")
+def m_iter_pick(I, state, frame, bi, t, args, span):
+    it = deref(I, state, args[0]) if args[0][0] == "ref" else args[0]
+    res = [(adt(OPTION, {0: ()}), state.copy())]
+    for (e, s1) in each_element(I, state, frame, bi, it, span):
+        res.append((some(e), s1))
+    return res
+
+
+@model("std::collections::HashMap::<K, V, S, A>::retain")
+def m_map_retain(I, state, frame, bi, t, args, span):
+    from interp import join_state
+    a = args[0]
+    v = deref(I, state, a)
+    st = state
+    if v[0] == "coll":
+        kk = v[2] if v[2] is not None else TOP
+        vv = v[1] if v[1] is not None else TOP
+        s1 = state.copy()
+        s1.heap[("retk", frame.fid, bi)] = kk
+        s1.heap[("retv", frame.fid, bi)] = vv
+        merged = None
+        for (rv, s2) in call_closure(I, s1, frame, bi, args[1], [ref(("retk", frame.fid, bi), ()), ref(("retv", frame.fid, bi), ())], span):
+            merged = join_state(merged, s2)
+        st = merged if merged is not None else state
+        tags = set(v[3])
+        if "history_clone" in tags:
+            tags.add("history_filtered")
+            c = deref(I, st, args[1]) if args[1][0] == "ref" else args[1]
+            if c[0] == "adt":
+                tags.add(("filter_closure", c[1]))
+            I.rec.put("collect", I.sitekey(frame, bi, -1),
+                      dict(fn=frame.body.name, bb=bi, span=span, tags=frozenset(tags), stack=frame.stack))
+        if a[0] == "ref":
+            new = ("coll", v[1], v[2], frozenset(tags))
+            cur = I.load_root(st, a[1])
+            I.store_root(st, a[1], av_set(cur, a[2], new, I.uni) if a[2] else new)
+    return [(TOP, st)]
+
+
+@model("std::option::Option::<T>::map_or")
+def m_opt_map_or(I, state, frame, bi, t, args, span):
+    o = args[0]
+    res = []
+    vs = adt_variants(o) if (o[0] == "adt" and o[1] == OPTION) else {0: (), 1: (TOP,)}
+    if 0 in vs:
+        res.append((args[1], state.copy()))
+    if 1 in vs:
+        for (rv, st) in call_closure(I, state.copy(), frame, bi, args[2], [vs[1][0]], span):
+            res.append((rv, st))
+    return res
+
+
+@model("std::option::Option::<T>::map_or_else")
+def m_opt_map_or_else(I, state, frame, bi, t, args, span):
+    o = args[0]
+    res = []
+    vs = adt_variants(o) if (o[0] == "adt" and o[1] == OPTION) else {0: (), 1: (TOP,)}
+    if 0 in vs:
+        res.extend(call_closure(I, state.copy(), frame, bi, args[1], [], span))
+    if 1 in vs:
+        res.extend(call_closure(I, state.copy(), frame, bi, args[2], [vs[1][0]], span))
+    return res
+
+
+@model("std::option::Option::<T>::unwrap_or", "std::option::Option::<T>::unwrap_or_default")
+def m_opt_unwrap_or(I, state, frame, bi, t, args, span):
+    o = args[0]
+    vs = adt_variants(o) if (o[0] == "adt" and o[1] == OPTION) else {0: (), 1: (TOP,)}
+    d = args[1] if len(args) > 1 else TOP
+    res = []
+    if 0 in vs:
+        res.append((d, state.copy()))
+    if 1 in vs:
+        res.append((vs[1][0], state.copy()))
+    return res
+
+
+@model("std::option::Option::<T>::unwrap_or_else")
+def m_opt_unwrap_or_else(I, state, frame, bi, t, args, span):
+    o = args[0]
+    vs = adt_variants(o) if (o[0] == "adt" and o[1] == OPTION) else {0: (), 1: (TOP,)}
+    res = []
+    if 0 in vs:
+        res.extend(call_closure(I, state.copy(), frame, bi, args[1], [], span))
+    if 1 in vs:
+        res.append((vs[1][0], state.copy()))
+    return res
+
+
+@model("std::option::Option::<T>::and_then")
+def m_opt_and_then(I, state, frame, bi, t, args, span):
+    o = args[0]
+    vs = adt_variants(o) if (o[0] == "adt" and o[1] == OPTION) else {0: (), 1: (TOP,)}
+    res = []
+    if 0 in vs:
+        res.append((adt(OPTION, {0: ()}), state.copy()))
+    if 1 in vs:
+        res.extend(call_closure(I, state.copy(), frame, bi, args[1], [vs[1][0]], span))
+    return res
+
+
+@model("std::option::Option::<T>::ok_or")
+def m_opt_ok_or(I, state, frame, bi, t, args, span):
+    o = args[0]
+    vs = adt_variants(o) if (o[0] == "adt" and o[1] == OPTION) else {0: (), 1: (TOP,)}
+    res = []
+    if 1 in vs:
+        res.append((ok(vs[1][0]), state.copy()))
+    if 0 in vs:
+        res.append((err(args[1]), state.copy()))
+    return res
+
+
+@model("std::option::Option::<T>::filter", "std::option::Option::<T>::is_some_and", "std::option::Option::<T>::is_none_or")
+def m_opt_filter(I, state, frame, bi, t, args, span):
+    from mir import callee_of
+    nm = callee_of(t)[0].split("::")[-1] if "f" in t and "fn" in t["f"] else "filter"
+    o = args[0]
+    vs = adt_variants(o) if (o[0] == "adt" and o[1] == OPTION) else {0: (), 1: (TOP,)}
+    res = []
+    if nm == "filter":
+        res.append((adt(OPTION, {0: ()}), state.copy()))
+        if 1 in vs:
+            root = ("optf", frame.fid, bi)
+            s1 = state.copy()
+            s1.heap[root] = vs[1][0]
+            for (rv, s2) in call_closure(I, s1, frame, bi, args[1], [ref(root, ())], span):
+                if not (rv[0] == "fin" and rv[1] == BOOL and (1,) not in rv[2]):
+                    res.append((some(vs[1][0]), s2))
+        return res
+    if 0 in vs:
+        res.append((FALSE if nm == "is_some_and" else TRUE, state.copy()))
+    if 1 in vs:
+        for (rv, s2) in call_closure(I, state.copy(), frame, bi, args[1], [vs[1][0]], span):
+            res.append((strip_links(rv) if rv[0] == "fin" else BOOL_TOP, s2))
+    return res
+
+
+@model("std::option::Option::<T>::take", "std::mem::take", "std::mem::replace")
+def m_take(I, state, frame, bi, t, args, span):
+    a = args[0]
+    if a[0] == "ref":
+        cur = av_get(I.load_root(state, a[1]), a[2], I.uni)
+        new = args[1] if len(args) > 1 else None
+        if new is None:
+            if cur is not None and cur[0] == "coll":
+                new = coll()
+            elif cur is not None and cur[0] == "adt" and cur[1] == OPTION:
+                new = adt(OPTION, {0: ()})
+            else:
+                new = TOP
+        root_av = I.load_root(state, a[1])
+        if a[1][0] in ("job", "self"):
+            I.rec.note("imprecise", "mem::take/replace on engine state in %s" % frame.body.name)
+            I.havoc_jobs(state)
+        else:
+            I.store_root(state, a[1], av_set(root_av, a[2], new, I.uni) if a[2] else new)
+        return [(cur if cur is not None else TOP, state)]
+    return [(TOP, state)]
+
+
+@model("<std::option::Option<T> as std::ops::Try>::branch")
+def m_try_branch_opt(I, state, frame, bi, t, args, span):
+    o = args[0]
+    vs = adt_variants(o) if (o[0] == "adt" and o[1] == OPTION) else {0: (), 1: (TOP,)}
+    out = {}
+    if 1 in vs:
+        out[0] = (vs[1][0],)
+    if 0 in vs:
+        out[1] = (adt(OPTION, {0: ()}),)
+    return [(adt(CFLOW, out), state)]
+
+
+@model("<std::option::Option<T> as std::ops::FromResidual<std::option::Option<std::convert::Infallible>>>::from_residual")
+def m_from_residual_opt(I, state, frame, bi, t, args, span):
+    return [(adt(OPTION, {0: ()}), state)]
+
+
+@model("std::vec::Vec::<T, A>::clear", "std::vec::Vec::<T, A>::truncate", "std::vec::Vec::<T, A>::reserve", "std::vec::Vec::<T, A>::sort",
+       "std::vec::Vec::<T, A>::dedup", "std::collections::HashSet::<T, S, A>::clear", "std::collections::HashMap::<K, V, S, A>::clear",
+       "core::slice::<impl [T]>::sort", "core::slice::<impl [T]>::reverse", "std::vec::Vec::<T, A>::shrink_to_fit",
+       "std::collections::VecDeque::<T, A>::clear")
+def m_coll_noop(I, state, frame, bi, t, args, span):
+    a = args[0]
+    sf = self_field_of(I, a)
+    if sf is not None:
+        I.rec.put("store_self", I.sitekey(frame, bi, -1),
+                  dict(fn=frame.body.name, bb=bi, span=span, proj=a[2], value=TOP, old=None, stack=frame.stack, call="clear/sort"))
+    return [(TOP, state)]
+
+
+@model("std::vec::Vec::<T, A>::contains", "core::slice::<impl [T]>::contains", "std::collections::VecDeque::<T, A>::contains")
+def m_coll_contains(I, state, frame, bi, t, args, span):
+    return [(BOOL_TOP, state)]
+
+
+@model("<std::collections::HashSet<T, S, A> as std::iter::Extend<T>>::extend", "<std::collections::HashMap<K, V, S, A> as std::iter::Extend<(K, V)>>::extend")
+def m_extend2(I, state, frame, bi, t, args, span):
+    return m_extend(I, state, frame, bi, t, args, span)
+
+
+@model("std::collections::HashMap::<K, V, S, A>::values", "std::collections::HashMap::<K, V, S, A>::into_values")
+def m_map_values(I, state, frame, bi, t, args, span):
+    v = deref(I, state, args[0])
+    if v[0] == "coll":
+        return [(("iter", ("av", v[1])), state)]
+    return [(("iter", ("av", TOP)), state)]
+
+
+@model("std::collections::HashMap::<K, V, S, A>::iter", "std::collections::HashMap::<K, V, S, A>::iter_mut")
+def m_map_iter(I, state, frame, bi, t, args, span):
+    a = args[0]
+    sf = self_field_of(I, a)
+    if sf == I.layout.history_field:
+        return [(("iter", ("pairs", string([("histkey",)]), string([("hist", frozenset([("anykey",)]))]), frozenset(["history_view"]))), state)]
+    v = deref(I, state, a)
+    if v[0] == "coll":
+        return [(("iter", ("pairs", v[2], v[1], v[3])), state)]
+    return [(("iter", ("av", TOP)), state)]
